@@ -149,12 +149,18 @@ Thermdat(S, keep) ==
          /\ h' = Append(h, Rec("thermdat", src, dst, keep))
    /\ UNCHANGED orig
 
-Next == \/ \E i \in 1..Len(ws), keep \in BOOLEAN, a \in {"json", "dict", "deepcopy"} : One(a, i, keep)
+\* closes a behaviour (one successor of a complete chain, so that it is printed exactly once)
+Finish == /\ Len(h) = MaxOps
+          /\ h' = Append(h, [act |-> "end", src |-> <<>>, dst |-> <<>>, keep |-> TRUE, ws |-> <<>>])
+          /\ UNCHANGED <<orig, ws>>
+
+Next == \/ Finish
+        \/ \E i \in 1..Len(ws), keep \in BOOLEAN, a \in {"json", "dict", "deepcopy"} : One(a, i, keep)
         \/ \E S \in SUBSET (1..Len(ws)), keep \in BOOLEAN : Thermdat(S, keep)
 Spec == Init /\ [][Next]_vars
 
 \* ---- the property -----------------------------------------------------------------
-TypeOK == /\ Len(ws) <= MaxObjs /\ Len(h) <= MaxOps
+TypeOK == /\ Len(ws) <= MaxObjs /\ Len(h) <= MaxOps + 1
           /\ \A i \in 1..Len(ws) : ws[i].origin \in 1..Len(orig) /\ ws[i].prec \in {"exact", "nine"}
 
 \* every live object still is its origin, at its precision class (cumulative: always against
@@ -199,6 +205,6 @@ OthersUntouched == [][\A i \in 1..Len(ws) :
                          (Last.keep \/ \A k \in 1..Len(Last.src) : Last.src[k] # i) => ws'[i] = ws[i]]_vars
 
 \* ---- behaviours for replay ----------------------------------------------------------
-Done == Len(h) = MaxOps
+Done == Len(h) = MaxOps + 1
 EmitBehaviours == Done => PrintT(<<"BEH", orig, h>>)
 =============================================================================
